@@ -51,7 +51,7 @@ STD_ASSUMPTIONS = {
 }
 
 
-INTERNER_ITEMS = ['Interner<T>::*', "Symbol<'_, T>::into_untracked", 'From<u32> for UntrackedSymbol<T>::from']
+INTERNER_ITEMS = ['Interner<T>::*', "Symbol<'_, T>::into_untracked", 'From<u32> for UntrackedSymbol<T>::from', 'Default for Interner<T>::default']
 REGISTRY_ITEMS = ['Registry::new', 'Registry::intern_type_id', 'Registry::register_type', 'Registry::register_types', 'Registry::map_into_portable']
 IMPL_ITEMS = ['IntoPortable for *::into_portable']
 
@@ -61,10 +61,11 @@ PROPS = {
         level='proof',
         technique='Verus data-structure invariant + trait-level contract on every into_portable impl; retain closure/cardinality contract; Kani bounded stand-ins for 3 closure functions',
         level_text='Registry::inv (every stored definition is filed under an in-range id and all ids it mentions are in range) and the pay-back clause (a call leaves a definition for exactly the ids it interned) are proved for register_type / intern_type_id and inherited by all 14 IntoPortable impls with MetaType::type_info() unconstrained, so density and closure hold after every top-level call for every type with type info (lemma_dense_step, lemma_dense_closed); resolve returns exactly the entry at the position; the builder is proved a duplicate-free list; retain is proved to keep all ids in range of a registry of matching cardinality.',
-        level_note='Assumed contracts: BTreeMap entry API, lawful Ord/Clone of key types, mem::replace. Left external in Verus with assumed contracts (bounded stand-ins, not counted): Registry::register_types, map_into_portable, TypeParameter::into_portable (closures capturing &mut) and PortableRegistryBuilder::new / finish (derived Default, enumerate). From<Registry> for PortableRegistry IS verified (as an identical-text inherent twin, tuple-pattern closure rewritten to a let, rule R8) under the assumption that BTreeMap iterates in ascending key order. Not covered: registries obtained by decoding (decoder out of reach). Partial correctness for registration. All id guarantees up to 2^32 entries.',
+        level_note='Assumed contracts: BTreeMap entry API, lawful Ord/Clone of key types, mem::replace. Left external in Verus with assumed contracts (bounded stand-ins, not counted): Registry::register_types, map_into_portable, TypeParameter::into_portable (closures capturing &mut) and PortableRegistryBuilder::finish (enumerate). From<Registry> for PortableRegistry IS verified (as an identical-text inherent twin, tuple-pattern closure rewritten to a let, rule R8) under the assumption that BTreeMap iterates in ascending key order. Not covered: registries obtained by decoding (decoder out of reach). Partial correctness for registration. All id guarantees up to 2^32 entries.',
         verus=[('interner', INTERNER_ITEMS), ('registry', REGISTRY_ITEMS + ['tmpl::lemma_dense_*', 'tmpl::lemma_img_closed', 'tmpl::lemma_*_mono']),
                ('registry_impls', IMPL_ITEMS),
                ('portable', ['PortableRegistry::resolve', 'PortableRegistryBuilder::*', 'PortableType::new', 'Registry::types',
+                             '::core::default::Default for PortableRegistryBuilder::default',
                              'From<Registry> for PortableRegistry::from', 'tmpl::lemma_from_registry_dense', 'tmpl::lemma_sorted_*']),
                ('retain', ['PortableRegistry::retain', 'tmpl::lemma_*'])],
         kani_quick=['builder_new_is_empty', 'map_into_portable_in_order'],
@@ -119,8 +120,8 @@ PROPS = {
         level='proof',
         technique='Verus contracts (abstract view = list, representation invariant) on the extracted Interner and PortableRegistryBuilder functions; history lemma',
         level_text='Every Interner and builder operation is proved, for all element types, values and prior states satisfying the representation invariant, to behave exactly like the duplicate-free list that is its abstract view (new value -> appended and the next free index, equal value -> its first index and nothing changes, get/resolve -> stored value or None); each operation requires only the invariant and re-establishes it, so the statement holds for every finite history (lemma_builder_history over operation scripts).',
-        level_note='PortableRegistryBuilder::new (derived Default) and finish (enumerate + tuple-pattern closure) are left external with assumed contracts; Kani stand-ins: builder_new_is_empty (complete, no inputs) and builder_finish_lists_values (bounded, <= 3 registrations). Assumed: BTreeMap entry API contract, lawful Ord/Clone of Type<PortableForm>. Ids guaranteed up to 2^32 entries.',
-        verus=[('interner', INTERNER_ITEMS), ('portable', ['PortableRegistryBuilder::*', 'tmpl::lemma_builder_history'])],
+        level_note='PortableRegistryBuilder::new IS verified (derived Default impl taken from the rustc expansion, Interner::default, Interner::new). finish (enumerate + tuple-pattern closure) is left external with an assumed contract; stand-ins: Kani builder_finish_lists_values (thorough, bounded <= 3 registrations) and the native builder scripts; Kani builder_new_is_empty cross-checks new on the real code. Assumed: BTreeMap entry API contract, lawful Ord/Clone of Type<PortableForm>. Ids guaranteed up to 2^32 entries.',
+        verus=[('interner', INTERNER_ITEMS), ('portable', ['PortableRegistryBuilder::*', '::core::default::Default for PortableRegistryBuilder::default', 'tmpl::lemma_builder_history'])],
         kani_quick=['builder_new_is_empty'], kani_thorough=['builder_new_is_empty', 'builder_finish_lists_values'],
         assumptions=['A1', 'A5', 'A7', 'VSTD', 'TOOLS'],
     ),
